@@ -471,13 +471,13 @@ def minsum_correction_evaluated(ci):
             continue
         set_parents(fi_.node)
         for st in stmts_of(fi_.body):
-            txt = unparse(st)
-            if ("self.scaling_factor" in txt or "self.offset" in txt) and isinstance(st, (ast.If, ast.Assign, ast.AugAssign)):
-                if any(a in picked_nodes for a in ancestors(st)) if (picked_nodes := [p_[0] for p_ in picked]) else False:
-                    continue
-                if isinstance(st, (ast.Assign, ast.AugAssign)) and any(isinstance(a, ast.If) and ("self.scaling_factor" in unparse(a.test) or "self.offset" in unparse(a.test)) for a in ancestors(st)):
-                    continue  # comes with its guard
-                picked.append((st, mname))
+            picked_nodes = [p_[0] for p_ in picked]
+            if any(a in picked_nodes for a in ancestors(st)):
+                continue
+            if isinstance(st, ast.If) and ("self.scaling_factor" in unparse(st.test) or "self.offset" in unparse(st.test)):
+                picked.append((st, mname))  # a correction under its configuration guard
+            elif isinstance(st, (ast.Assign, ast.AugAssign)) and ("self.scaling_factor" in unparse(st.value) or "self.offset" in unparse(st.value)):
+                picked.append((st, mname))  # an unguarded correction
     if not picked:
         return None, "no statement mentions the scaling factor or the offset"
     body = []
@@ -1064,6 +1064,16 @@ def rule_rm(repo: Repo, rep: Report) -> int:
 
 
 def run(repo: Repo, rep: Report, tier: str) -> None:
+    if tier == "thorough":
+        ci_ = repo.cls(BP, "BeliefPropagationDecoder")
+        vc_ = repo.method(ci_, "compute_vc")
+        st_, d_ = compute_vc_evaluated(vc_)
+        if st_ is not None:
+            rep.add("BP-UPDATE", vc_, "compute_vc evaluated on a graph with variables of degree 1, 2 and 3 (thorough tier)", st_, d_, node=vc_.node)
+        ms_ = repo.cls(MS, "MinSumLDPCDecoder")
+        st_, d_ = minsum_correction_evaluated(ms_)
+        if st_ is not None:
+            rep.add("MINSUM", repo.method(ms_, "compute_cv_minsum"), "normalisation / offset correction composed and evaluated (thorough tier)", st_, d_)
     n = rule_groups(repo, rep)
     n += rule_bp(repo, rep)
     n += rule_minsum(repo, rep)
